@@ -246,7 +246,11 @@ func truncations(c *explore.Ctx) {
 		}
 	}
 	// every single-byte corruption: totality only
-	if len(e) <= 120 {
+	maxCorrupt := 12
+	if c.Thorough() {
+		maxCorrupt = 120
+	}
+	if len(e) <= maxCorrupt {
 		buf := make([]byte, len(e))
 		for pos := 0; pos < len(e); pos++ {
 			for x := 0; x < 256; x++ {
